@@ -978,16 +978,21 @@ def r01_13(duke, R):
             base = "%s:0..%s" % (b.get("name") or b["key"].split("::")[-1], what)
             seen[base] = seen.get(base, 0) + 1
             key = base if seen[base] == 1 else "%s#%d" % (base, seen[base])
-            ex = _loop_exits(lp["body"])
-            R.inst("R01.13", "loop:%s:every-iteration-delivers" % key, not ex, sp=lp.get("sp"), expect="no continue/break",
+            inner = [x for x in H.walk(lp["body"]) if x.get("k") in ("for", "loop", "while")]
+            pushes = [p for p in H.walk(lp["body"]) if p.get("k") == "mcall" and p["name"] in ("push", "push_back", "insert") and H.local_of(p["recv"])
+                      and not any(any(y is p for y in H.walk(i["body"])) for i in inner)]
+            if not pushes:
+                # a dispatch loop (attribute names, tags): what each arm delivers is decided by R01.6/R01.8; an early `continue` in an arm
+                # is just another way to end the arm
+                continue
+            order = {id(x): n for n, x in enumerate(H.walk(lp["body"]))}
+            first_push = min(order[id(p)] for p in pushes)
+            ex = [x for x in _loop_exits(lp["body"]) if order.get(id(x), 0) < first_push]
+            R.inst("R01.13", "loop:%s:every-iteration-delivers" % key, not ex, sp=lp.get("sp"), expect="no continue/break before the element is stored",
                    got=[("%s at %s" % (x["k"], x.get("sp"))) for x in ex])
             n += 1
-            inner = [x for x in H.walk(lp["body"]) if x.get("k") in ("for", "loop", "while")]
-            for p in H.walk(lp["body"]):
-                if p.get("k") == "mcall" and p["name"] in ("push", "push_back", "insert") and H.local_of(p["recv"]):
-                    if any(any(y is p for y in H.walk(i["body"])) for i in inner):
-                        continue
-                    conds = [(k, H.render(c)[:60] if k != "arm" else "match arm", pp) for k, c, pp in H.path_conditions(lp["body"], p)]
-                    R.inst("R01.13", "loop:%s:%s.%s-unconditional" % (key, H.local_of(p["recv"])[1], p["name"]), not conds, sp=p.get("sp"),
-                           expect="the element read in this iteration is always stored", got=conds)
-    R.floor("R01.13", 28 + 9)
+            for p in pushes:
+                conds = [(k, H.render(c)[:60] if k != "arm" else "match arm", pp) for k, c, pp in H.path_conditions(lp["body"], p, skip_error_exits=True)]
+                R.inst("R01.13", "loop:%s:%s.%s-unconditional" % (key, H.local_of(p["recv"])[1], p["name"]), not conds, sp=p.get("sp"),
+                       expect="the element read in this iteration is always stored", got=conds)
+    R.floor("R01.13", 12)      # 9 table-filling counted loops (loop + push instance each) today; a loop rewritten as an iterator chain leaves the rule
